@@ -31,6 +31,13 @@ programs and all schedules in coq/props/C20.v.  This module ties the model to th
       verdict; where the abort report itself cannot be written, any failing end of the run is accepted as the exit
       status, the files are judged all the same.  An environment in which the tool cannot even do its undisturbed
       work (it prints to stdout in normal operation) is replaced by its stderr-only variant or skipped (counted);
+ (F)  FAILING INPUTS are a dimension too: per tool one invocation whose first file is damaged so that the per-file work
+      raises part-way (Ogg page with a broken capture pattern for moggsplit, unsupported ID3 version for mid3v2 /
+      mid3iconv / the destination of mid3cp), followed by a healthy file; a signal at every event of the failing
+      file's unit.  Reference: the undisturbed runs of the same invocations, whatever they do with the bad file
+      (skip it and go on, or die of it); verdict as in D -- no later file may be started after the signal.  Where the
+      tool dies of the bad input by itself, dying the same death after the same operations counts as "as if no signal
+      had arrived" (counted as ended-as-the-undisturbed-failure): the abort is then not reported as such;
  (V)  vm_compute cross-check of the extracted binary.
 """
 import os, sys, json, errno, signal, select, shutil, time, hashlib, builtins, contextlib, io, importlib, itertools, re, traceback
@@ -721,7 +728,7 @@ def build_plan(ctx, case, linemode, par, envs=()):
         P.envs[e] = None
         for v in ENV_VARIANTS[e]:
             r = env_res[v]
-            if r.get("trace") == P.prog and r.get("outcome") == "Finished" and r.get("snap") == P.stage_snaps[-1]:
+            if r.get("trace") == P.prog and (r.get("outcome"), r.get("exc")) == (P.und_outcome, P.und_exc) and r.get("snap") == u1["snap"]:
                 P.envs[e] = v
                 break
         if P.envs[e] is None:
@@ -920,6 +927,7 @@ def check_case(ctx, case, schedule, linemode, par, deadline=None):
     todo = schedule(len(P.prog), case)
     if case.failing and P.spans:                 # every event of the failing file's unit (and the block boundaries around it)
         todo = [x for x in todo if x[1] <= P.spans[0][1] + 2]
+    todo = [x for x in todo if P.prog[x[1]] != "X"]      # an exception leaving a block is recorded, it is not a point of delivery
     done = 0
     nviol0 = len(ctx.violations)
     # healthy environment first; the other environments only add information where the tool is fine in the healthy one
